@@ -3,6 +3,8 @@ import BertE.Gen.Messages
 import BertE.Model.Jira
 import BertE.Lemmas.Jira
 import BertE.Drv.C11
+import BertE.Lemmas.EvalGates
+import BertE.Drv.Eval
 /-
 C11 — the ticket gate.
 
@@ -609,5 +611,87 @@ example : jiraChecks { cfg0 with jiraEmail := "" } (in0 "fix-something" ["5.1.4"
 /-- C11_failure_is_posted on the generated tables -/
 example : kindOf BertE.Gen.Messages.messages "IncorrectFixVersion" = some "template" :=
   C11_failure_is_posted C11_messages_distinct cfg0 (in0 "PROJ-12" ["5.1.4"] [] "Bug") _ (by decide)
+
+end BertE.C11
+
+
+/-! ### End to end: the ticket gate inside the composed evaluation (`Model/Eval.lean`)
+
+The gate's inputs are read off the state of the host and of the repository: prefix and ticket from the NAME of the
+source branch of the pull request, the issue from the host's Jira table under that ticket's key, the per-class
+`allow_ticketless_pr` flags of the targets of the cascade, the bypass from the options computed from the comments of
+the pull request and the per-author settings of its author (`Eval.jiraCfg`, `Eval.jiraInput`). -/
+namespace BertE.C11
+open BertE.Jira BertE.Eval BertE.Flow BertE.Reactor
+
+/-- **C11, end to end.** If the plan of the evaluation of a pull request (not DECLINED) holds ANY remote operation
+    — integration branches are pushed, a queue entry is made, a branch moves — the ticket gate admitted the pull
+    request (bypassed, Jira not configured, ticketless allowed, or the ticket fits). -/
+theorem C11_e2e_ops {c : Eval.Cfg} {h : Host} {s : Sys} {id : Nat} {orc : List Bool} {sel : List Nat}
+    (hd : (evalPr c h s id orc sel).declined = false) (hops : (evalPr c h s id orc sel).plan.ops ≠ []) :
+    ∃ p st src dst, AtClone c h s id p st src dst ∧
+      Spec.admits (jiraCfg c (envFor c p) st) (jiraInput c h p src (s.targets dst)) := by
+  obtain ⟨p, st, src, dst, sc, dc, hat, _, _, _, hpj⟩ := evalPr_late hd (evalPr_ops_late hd hops)
+  exact ⟨p, st, src, dst, hat, (C11_pass_iff _ _).mp hpj.jira⟩
+
+/-- **C11, end to end, the refusals.** When the gate does not admit the pull request found at the clone, the
+    evaluation ends at the early stage and its plan is EMPTY: the repository is left untouched — whichever of the
+    five failures (or the Jira error) it is. -/
+theorem C11_e2e_refused {c : Eval.Cfg} {h : Host} {s : Sys} {id : Nat} {orc : List Bool} {sel : List Nat}
+    {p : Eval.Pr} {st : State} {src : BertE.Names.Parsed} {dst : Dest}
+    (hat : AtClone c h s id p st src dst) (hd : (evalPr c h s id orc sel).declined = false)
+    (hna : ¬ Spec.admits (jiraCfg c (envFor c p) st) (jiraInput c h p src (s.targets dst))) :
+    (evalPr c h s id orc sel).stage = .early ∧ (evalPr c h s id orc sel).plan.ops = [] := by
+  have hearly : (evalPr c h s id orc sel).stage = .early := by
+    apply Classical.byContradiction
+    intro hne
+    obtain ⟨p', st', src', dst', sc, dc, hat', _, _, _, hpj⟩ := evalPr_late hd hne
+    obtain ⟨rfl, rfl, rfl, rfl⟩ := hat.unique hat'
+    exact hna ((C11_pass_iff _ _).mp hpj.jira)
+  refine ⟨hearly, ?_⟩
+  have := evalPr_planPr c h s id orc sel hd
+  rw [hearly, evalL_planPr_early] at this
+  rw [this]; rfl
+
+/-! Non-vacuity: Jira configured, the source branch names TEST-1. Without the issue on the host the job ends as
+    `JiraIssueNotFound` with an empty plan; with a fitting issue the integration branch is pushed. -/
+
+def e2eCfg : Eval.Cfg :=
+  { reg := BertE.Drv.C07.genRegistry
+    env := ⟨["admin"], "", "robot", []⟩
+    authorOptions := []
+    early := BertE.Drv.C12.genTbl
+    build := BertE.Drv.C06.genTbl
+    buildKey := "pre-merge"
+    approvals := { requiredPeers := 0, requiredLeaders := 0, needAuthor := false, projectLeaders := ["admin"],
+                   robot := "robot", bypassAuthorS := false, bypassAuthorA := false, bypassPeerS := false,
+                   bypassPeerA := false, bypassLeaderS := false, bypassLeaderA := false, approve := false,
+                   unanimity := false }
+    jira := ⟨false, false, [], ["TEST"], "bot@x", "http://jira", ["Story"], false⟩
+    ticketless := BertE.Drv.Eval.ticketlessOf
+    maxCommitDiff := 0
+    createBranches := true
+    createPrs := false }
+
+def e2eSys : Sys :=
+  (step (BertE.Drv.C01.initSys true false [.dev 4 (some 3), .dev 5 (some 1)]) (.extSet "feature/TEST-1" [1] false)).1
+
+def e2eHost (issues : List (String × Lookup)) : Host :=
+  ⟨[{ id := 1, author := "contrib", src := "feature/TEST-1", dst := "development/4.3", status := "OPEN",
+      comments := [], approvals := [], changeRequests := [], participants := [],
+      facts := { targetVersions := ["4.3.0", "5.1.0"] } }], [], issues⟩
+
+example : (evalPr e2eCfg (e2eHost []) e2eSys 1 [] []).outcome = "JiraIssueNotFound" ∧
+    (evalPr e2eCfg (e2eHost []) e2eSys 1 [] []).plan.ops = [] ∧
+    (evalPr e2eCfg (e2eHost []) e2eSys 1 [] []).notified = ["InitMessage", "JiraIssueNotFound"] := by decide +kernel
+
+example : (evalPr e2eCfg (e2eHost [("TEST-1", .found ⟨"", "Story", ["4.3.0", "5.1.0"]⟩)]) e2eSys 1 [] []).plan.ops ≠ [] ∧
+    (evalPr e2eCfg (e2eHost [("TEST-1", .found ⟨"", "Story", ["4.3.0", "5.1.0"]⟩)]) e2eSys 1 [] []).declined = false ∧
+    (evalPr e2eCfg (e2eHost [("TEST-1", .found ⟨"", "Story", ["4.3.0", "5.1.0"]⟩)]) e2eSys 1 [] []).outcome = "BuildNotStarted" := by
+  decide +kernel
+
+example : (evalPr e2eCfg (e2eHost [("TEST-1", .found ⟨"", "Story", ["4.3.0"]⟩)]) e2eSys 1 [] []).outcome = "IncorrectFixVersion" ∧
+    (evalPr e2eCfg (e2eHost [("TEST-1", .found ⟨"", "Story", ["4.3.0"]⟩)]) e2eSys 1 [] []).plan.ops = [] := by
+  decide +kernel
 
 end BertE.C11
